@@ -152,7 +152,13 @@ def rule_math_span(ctx, rep, cfgs):
             raise AnalysisError('%s.parse_group is %r: only the whole match (0) is handled' % (cls.short, pg))
         A = rx.ALPHABET_CORE
         L = rx.Lang(pv.pattern, pv.flags, mode='full', alphabet=A, name=cls.short + '.pattern', relax_backrefs=True)
-        S = rx.Lang(r'\${1,2}[^$]+\${1,2}', re.DOTALL, mode='full', alphabet=A, name='spec:math span')
+        try:
+            # exact when the back-referenced delimiter group has finitely many values ($ or $$): the closing delimiter
+            # is the opening one
+            L = rx.Lang(pv.pattern, pv.flags, mode='full', alphabet=A, name=cls.short + '.pattern')
+        except rx.RxUnsupported:
+            pass
+        S = rx.Lang(r'\$[^$]+\$|\$\$[^$]+\$\$', re.DOTALL, mode='full', alphabet=A, name='spec:math span')
         w = rx.witness([L], [S], A)
         rep.obligation('R-TEX-MATH', w is None, {'class': cls.short, 'pattern': pv.pattern, 'witness': w})
         if w is not None:
